@@ -12,3 +12,21 @@ package engine
 //@   property C47
 //@   callee (*shard.Shard).InhumeContainer, (*shard.Shard).DeleteContainer
 //@   requires [source_reported_absent] containerAbsent(a0)
+
+// ---- C06 (engine): every shard is asked to list from the position the caller gave: the
+// shared cursor is rewound to it before each shard's listing (a shard moves the cursor even
+// when it lists nothing).
+//@ ghost field cursorRewound(x int) bool
+//@ callrule c06_cursor_rewind in (*StorageEngine).ListWithCursor
+//@   property C06
+//@   callee (*metabase.Cursor).Reset
+//@   pureeffect
+//@   assigns cursorRewound
+//@   ensures cursorRewound(0) == (a0 == cnr && a1 == obj)
+//@ callrule c06_shard_listing_starts_from_callers_position in (*StorageEngine).ListWithCursor
+//@   property C06
+//@   callee (*shard.Shard).ListWithCursor
+//@   pureeffect
+//@   assigns cursorRewound
+//@   requires [cursor_rewound_before_each_shard] cursorRewound(0)
+//@   ensures !cursorRewound(0)
